@@ -418,6 +418,22 @@ pub fn check_one(model: &ZoneModel, tl: &Timeline, zr: TimeZoneRef<'_>, f: &Fiel
         if n_skip == 0 && (found.unique().is_some() != (n_norm == 1)) {
             return Err(format!("{}: {n_norm} valid instant(s) but unique() is {:?}", desc(), found.unique().map(|d| d.unix_time())));
         }
+        // the same claim through the buffer-based entry point, the way a caller uses it: ONE buffer kept across searches (here
+        // still holding the previous search's entries, and longer than this result): the valid instants it reports are the same
+        // set, and a local time that occurs once is reported as unique whatever the buffer held before (seeded change C05-r9m2)
+        if focus == Focus::C05 {
+            let n = list.len().max(stale.len()) + 1;
+            let mut buf: Vec<Option<FoundDateTimeKind>> = (0..n).map(|i| stale.get(i).copied().flatten()).collect();
+            let r = DateTime::find_n(&mut buf, f.y, f.mo, f.d, f.h, f.mi, f.s, f.ns, zr).map_err(|e| format!("{}: find succeeded, find_n failed: {e:?}", desc()))?;
+            let via_n: Vec<i64> = r.data().iter().flatten().filter_map(|k| if let FoundDateTimeKind::Normal(d) = k { Some(d.unix_time()) } else { None }).collect();
+            if via_n != got_n.iter().map(|g| g.0).collect::<Vec<_>>() {
+                return Err(format!("{}: with a reused buffer the buffer-based search reports the valid instants {via_n:?}, the allocating search {:?}", desc(), got_n.iter().map(|g| g.0).collect::<Vec<_>>()));
+            }
+            if n_skip == 0 && (r.unique().map(|d| d.unix_time()) != found.unique().map(|d| d.unix_time())) {
+                return Err(format!("{}: {n_norm} valid instant(s); with a buffer reused from the previous search unique() is {:?}, with the allocating search {:?}", desc(), r.unique().map(|d| d.unix_time()), found.unique().map(|d| d.unix_time())));
+            }
+            *stale = list.iter().map(|k| Some(*k)).collect();
+        }
     }
     if focus == Focus::C06 {
         // exact list of gap entries, strict ascending order of the whole list, earliest/latest/unique
@@ -949,7 +965,7 @@ pub fn run_search(ctx: &Ctx, focus: Focus, rule_text: &str) -> Outcome {
             return out;
         }
     }
-    let cases = ctx.tier.pick(12_000u32, 200_000u32);
+    let cases = ctx.tier.pick(20_000u32, 200_000u32);
     let strat = arb_search_case(16, 48);
     let rs = par_shards(16, |shard, st| pt_shard(ctx, kind, shard, cases, &strat, st, |c, st| check_search(c, focus, st)));
     out.absorb_all(rs);
@@ -957,7 +973,7 @@ pub fn run_search(ctx: &Ctx, focus: Focus, rule_text: &str) -> Outcome {
         return out;
     }
     let dense = arb_dense_case();
-    let cases = ctx.tier.pick(4_000u32, 60_000u32);
+    let cases = ctx.tier.pick(7_000u32, 60_000u32);
     let rs = par_shards(16, |shard, st| pt_shard(ctx, kind, 100 + shard, cases, &dense, st, |c, st| check_search(c, focus, st)));
     out.absorb_all(rs);
     out
